@@ -271,6 +271,9 @@ def shard(ctx):
                 data = wrap % ((c, c) if wrap.count("%s") == 2 else c)
                 run_input(ctx, data, ctx.rng("constructs", k), True)
                 ctx.count("construct_inputs")
+    for qi, q in enumerate(gen.token_sequences(ctx, 2, 3, 0.3, suffix="x\r\ny")):
+        run_input(ctx, q, ctx.rng("seq", qi), False)
+        ctx.count("sequence_inputs")
     n, idx = 0, ctx.i
     limit = (12000 if ctx.tier == "quick" else 150000) // ctx.n
     t_end = time.time() + ctx.time_left()
@@ -337,6 +340,7 @@ def replay(ctx, case):
 
 
 def finalize(m, v):
+    gen.sequences_inconclusive(m)
     c = m["counters"]
     states = m["sets"].get("boundary_states", set())
     if len(states) < 40:
